@@ -75,4 +75,11 @@ theorem C04_lmtp_one_reply_per_recipient (s : S) (cmd arg : Bytes) (hl : s.cfg.l
     (verbOf cmd = .data ∧ (nw (dispatch s cmd arg) = nw s + 1 + s.c.recipients.length ∨ nw (dispatch s cmd arg) = nw s + 2)) :=
   nw_dispatch_lmtp s cmd arg hl hv
 
+open SmtpV.Server in
+/-- **C04_starttls_replies.**  STARTTLS is answered with one reply when it is refused and with `220` alone when the handshake
+    succeeds (everything after it travels inside TLS); when the handshake fails one more reply (550) follows in plaintext. -/
+theorem C04_starttls_replies (s : S) :
+    nw (handleStartTLS s) = nw s + 1 ∨ nw (handleStartTLS s) = nw s + 2 :=
+  nw_handleStartTLS s
+
 end SmtpV.Props.C04
